@@ -5,7 +5,7 @@
     exceptions.  All statements quantify over ALL rationals / integers. *)
 From Coq Require Import ZArith QArith Qround Qabs List Bool Lia.
 From OG Require Import Base.Result Model.Roi Model.MathH Model.MathHCases (* cases: only so that the check's build closure keeps them fresh *)
-  Proofs.RoiProofs Proofs.MathHBasics Proofs.MathHSnap Proofs.MathHScale Proofs.MathHMisc Proofs.MathHLinear.
+  Proofs.RoiProofs Proofs.MathHBasics Proofs.MathHSnap Proofs.MathHSnapMin Proofs.MathHScale Proofs.MathHMisc Proofs.MathHLinear.
 Import ListNotations.
 Open Scope Q_scope.
 
@@ -185,6 +185,26 @@ Theorem C20_snap_grid_floating_neg :
 Proof. exact snap_grid_none_neg. Qed.
 Print Assumptions C20_snap_grid_floating_neg.
 
+(** minimal pixel count (0 <= tol <= 1/2): a snapped grid cannot start one pixel
+    later nor (when it has at least two pixels) end one pixel earlier and still
+    cover [x0, x1] up to [tol] pixel; a floating grid with at least two pixels
+    cannot drop its last pixel.  [lo] is the low edge for either sign of [rs]. *)
+Theorem C20_snap_grid_snapped_minimal :
+  forall x0 x1 rs o tol tx nx, ~ rs == 0 -> 0 <= tol -> tol <= 1#2 ->
+    snap_grid x0 x1 rs (Some o) tol = Ok (tx, nx) ->
+    let a := Qabs rs in
+    let lo := if Qltb 0 rs then tx else tx + inject_Z nx * rs in
+    x0 + tol * a <= lo + a /\ ((2 <= nx)%Z -> lo + inject_Z nx * a - a <= x1 - tol * a).
+Proof. exact snap_grid_some_min. Qed.
+Print Assumptions C20_snap_grid_snapped_minimal.
+
+Theorem C20_snap_grid_floating_minimal :
+  forall x0 x1 rs tol tx nx, ~ rs == 0 -> 0 <= tol -> tol <= 1#2 ->
+    snap_grid x0 x1 rs None tol = Ok (tx, nx) ->
+    (2 <= nx)%Z -> (inject_Z nx - 1) * Qabs rs <= x1 - x0 - tol * Qabs rs.
+Proof. exact snap_grid_none_min. Qed.
+Print Assumptions C20_snap_grid_floating_minimal.
+
 (** inputs outside the contract raise instead of returning a wrong grid *)
 Theorem C20_snap_grid_errors :
   forall x0 x1 rs tol : Q,
@@ -358,6 +378,9 @@ Proof. vm_compute. split; reflexivity. Qed.
 Example C20_ex_snap_grid_neg :
   exists tx, snap_grid (5#2) (47#4) (-(2#1)) (Some (1#2)) (1#100) = Ok (tx, 6%Z) /\ tx == 13#1.
 Proof. eexists. split; [vm_compute; reflexivity | reflexivity]. Qed.
+Example C20_ex_snap_grid_floating_neg_near_int :
+  snap_grid 10 (40 + (1#1000000000)) (-(10)) None (1#100) = Ok (40 + (1#1000000000), 3%Z).
+Proof. vm_compute. reflexivity. Qed.
 Example C20_ex_pow2 : align_up_pow2 (2 ^ 49 + 1) = (2 ^ 50)%Z /\ align_down_pow2 (2 ^ 49 + 1) = (2 ^ 49)%Z.
 Proof. split; vm_compute; reflexivity. Qed.
 Example C20_ex_snap_scale : exists r, snap_scale (1#4) (1#1000000) = Ok r /\ r == 1#4.
